@@ -348,7 +348,7 @@ def run(params):
         if scen in ('clean', 'now') and len(res.stops) > 1:
             from .c19 import late_custom_downstream
             if set(lb) != set(lr) and not (set(lr) - set(lb)) and (
-                    late_custom_downstream(res, set(lb) - set(lr))):
+                    late_custom_downstream(res, set(lb) - set(lr), never=True)):
                 # a custom output message sent while the scheduler was down
                 # was lost for good (C19-F1 / C10-F1: judged by C19, not a
                 # matter of stopping and restarting)
